@@ -387,6 +387,8 @@ func (g *Gen) encodeFrame(f *Frame, en string, st *State) {
 		recovered = append(recovered, rec...)
 	}
 	// recovered executions continue in the Recover block (or return zero values)
+	f.inRecovered = true
+	defer func() { f.inRecovered = false }()
 	for _, r := range recovered {
 		f.en, f.st = r.en, r.st
 		if f.fn.Recover != nil {
@@ -399,7 +401,7 @@ func (g *Gen) encodeFrame(f *Frame, en string, st *State) {
 			for k := 0; k < res.Len(); k++ {
 				rs = append(rs, Term{g.d.zero(res.At(k).Type()), g.d.sortOf(res.At(k).Type()), res.At(k).Type()})
 			}
-			f.exits = append(f.exits, Exit{en: f.en, st: f.st.clone(), results: rs})
+			f.exits = append(f.exits, Exit{en: f.en, st: f.st.clone(), results: rs, recovered: true})
 		}
 	}
 }
